@@ -12,7 +12,7 @@
    own ancestor" hold by construction); the correspondence compares them with
    the implementation's [_parent]/[_children]/[_tree] after every step. *)
 From Coq Require Import List ZArith Bool Arith Permutation.
-From NT Require Import Sx Rose Surgery Machine WF PreserveOps PreserveSort PreserveCopy PreserveMore PreserveRelabel PreserveKeepClones Invariant.
+From NT Require Import Sx Rose Surgery Machine WF PreserveOps PreserveSort PreserveCopy PreserveMore PreserveRelabel PreserveKeepClones Invariant CaseMut CaseWF.
 Import ListNotations.
 
 (* ---- the checker used by the correspondence decides WF ---- *)
@@ -116,6 +116,17 @@ Print Assumptions C01_history.
 Theorem C01_reachable : forall ops, WFw (run ops empty_world).
 Proof. intros ops. apply WFw_run. exact WFw_empty. Qed.
 Print Assumptions C01_reachable.
+
+(* a refused operation (whatever partial effect it keeps) leaves a well-formed world *)
+Theorem C01_refused_keeps_wf : forall w o e, WFw w -> fst (step w o) = Err e -> WFw (snd (step w o)).
+Proof. intros w o e H _. now apply WFw_step. Qed.
+Print Assumptions C01_refused_keeps_wf.
+
+(* the form the correspondence evaluates: along every case of CaseMut.v (guarded steps), the
+   checker answers true on every model state *)
+Theorem C01_model_flags_true : forall c : mcase, forallb (fun b => b) (wf_flags c) = true.
+Proof. exact wf_flags_true. Qed.
+Print Assumptions C01_model_flags_true.
 
 (* ---- corollaries spelled out ---- *)
 (* the tree's node count (= len(_node_by_id)) is the number of reachable nodes *)
